@@ -667,12 +667,12 @@ def readTTCHeader(file):
     sstruct.unpack(ttcHeaderFormat, data, self)
     if self.TTCTag != "ttcf":
         raise TTLibError("Not a Font Collection")
-    assert self.Version in (TTC_V1, TTC_V2), (
-        "unrecognized TTC version 0x%08x" % self.Version
-    )
-    self.offsetTable = struct.unpack(
-        ">%dL" % self.numFonts, file.read(self.numFonts * 4)
-    )
+    if self.Version not in (TTC_V1, TTC_V2):
+        raise TTLibError("unrecognized TTC version 0x%08x" % self.Version)
+    data = file.read(self.numFonts * 4)
+    if len(data) != self.numFonts * 4:
+        raise TTLibError("Not a Font Collection (not enough data)")
+    self.offsetTable = struct.unpack(">%dL" % self.numFonts, data)
     if self.Version == TTC_V2:
         # Unpack additional DSIG fields
         data = file.read(ttcTailSizeV2)
